@@ -107,7 +107,23 @@ def _observe(source, target, tb, fb, items):
         if abs(best - total) > REAL_TOL * max(1.0, best):
             c.violate("optimal_total", "optimal_total", observed=total, expected=best, spec=spec)
     else:
+        # too large for the exhaustive reference: a NECESSARY condition of a maximum total is still decidable -- no source
+        # left unpaired may have positive affinity with a target left unpaired (pairing the two would add to the total)
         c.note("optimality_not_judged_large_input")
+        us = [i for i, j, _ in items if j is None]
+        ut = [j for i, j, _ in items if i is None]
+        budget = 3000
+        c.mon("match.no_unpaired_overlapping_couple")
+        for i in us:
+            for j in ut:
+                if budget <= 0:
+                    break
+                budget -= 1
+                w_ = _affinity(source[i], target[j], tb, fb)
+                if w_ > 0:
+                    c.violate("optimal_total", "optimal_total:unpaired_source_and_unpaired_target_overlap", observed=[i, j, w_], expected="affinity 0 between any two unpaired geometries",
+                              spec={"kind": "match", "source": [ss[i]], "target": [ts[j]], "tb": tb, "fb": fb, "n": n, "m": m, "note": "pair taken from a larger call"})
+                    return
 
 
 def install():
@@ -357,6 +373,16 @@ def run_long_lists(ctx):
             return geoms.geom_in_box(rng, rng.choice(TYPES_), t0, t0 + w, base[2], base[3])
         # hundreds of detections far from every annotation come first in the list; the ones that matter come last
         ss, ts = [gen(i, True) for i in range(n_far)] + [gen(i, False) for i in range(n_near)], [gen(i, False) for i in range(m)]
+        # couples that meet only in the mitre spike of a sharply bent line (up to five buffers beyond its vertices): a
+        # rise-and-fall chirp and a box just above its apex, a folded line and a time stamp just past the fold
+        for q in range(6):
+            tq = 5000.0 + 40.0 * q
+            chirp = {"type": "LineString", "coordinates": [[tq, 1000.0], [tq + 0.05, 3000.0], [tq + 0.1, 1000.0]]}
+            above = {"type": "BoundingBox", "coordinates": [tq, 3150.0, tq + 0.1, 3300.0]}
+            fold = {"type": "LineString", "coordinates": [[tq + 10.0, 1300.0], [tq + 10.3, 2000.0], [tq + 10.0, 2700.0]]}
+            stamp = {"type": "TimeStamp", "coordinates": tq + 10.335}
+            (ss if q % 2 else ts).append(chirp); (ts if q % 2 else ss).append(above)
+            (ss if q % 2 else ts).append(fold); (ts if q % 2 else ss).append(stamp)
         n = len(ss)
         if rep % 2:
             ss, ts = ts, ss
